@@ -72,10 +72,12 @@ def setup() -> None:
 
 
 def _make_env(P, sandboxed, is_async, ae, lc):
+    """sandboxed: False plain, True sandboxed, 2 native environment."""
     import jinja2
+    from jinja2.nativetypes import NativeEnvironment
     from jinja2.sandbox import SandboxedEnvironment
 
-    cls = SandboxedEnvironment if sandboxed else jinja2.Environment
+    cls = NativeEnvironment if sandboxed == 2 else SandboxedEnvironment if sandboxed else jinja2.Environment
     env = cls(
         loader=jinja2.DictLoader(P.templates), enable_async=is_async, autoescape=AE_MODES[ae],
         extensions=["jinja2.ext.loopcontrols"] if lc else [],
@@ -83,6 +85,7 @@ def _make_env(P, sandboxed, is_async, ae, lc):
     )
     env.globals["gf"] = GlobalProbe()
     env.globals["gn"] = 3
+    env.globals["gd"] = {"k1": 1, "k2": [2]}
     return env
 
 
@@ -110,11 +113,11 @@ def _render_once(env, is_async, entry, api, data, tape):
             if api == 0:
                 return ("ok", tmpl.render(**data))
             if api == 1:
-                return ("ok", "".join(tmpl.generate(**data)))
+                return ("ok", "".join(map(str, tmpl.generate(**data))))
             if api == 2:
                 st = tmpl.stream(**data)
                 st.enable_buffering(3)
-                return ("ok", "".join(st))
+                return ("ok", "".join(map(str, st)))
             return ("ok", str(tmpl.make_module(dict(data))))
         if api == 2:
             policy.factory = lambda: A.SimLoop(tape)
@@ -133,7 +136,7 @@ def _render_once(env, is_async, entry, api, data, tape):
                 chunks = []
                 async for c in tmpl.generate_async(**data):
                     chunks.append(c)
-                return "".join(chunks)
+                return "".join(map(str, chunks))
             return str(await tmpl.make_module_async(dict(data)))
 
         try:
@@ -151,7 +154,7 @@ def _render_once(env, is_async, entry, api, data, tape):
 
 def _key(res):
     if res[0] == "ok":
-        return ("ok", scrub(res[1]))
+        return ("ok", scrub(res[1] if isinstance(res[1], str) else "native:" + type(res[1]).__name__ + ":" + repr(res[1])))
     return ("raised", exc_key(res[1]))
 
 
@@ -160,11 +163,13 @@ def run(tape: Tape) -> Outcome:
     clear_process_caches()  # a run must not depend on the runs before it in this worker
     out = Outcome()
     sandboxed = bool(tape.draw(2))
+    if tape.draw(6, "m") == 5:
+        sandboxed = 2  # NativeEnvironment
     is_async = bool(tape.draw(2))
     ae = tape.draw(3)  # autoescape: off, on, by template name (callable)
     lc = bool(tape.draw(2))
     size = 2 + tape.draw(4)
-    P = Gen(tape, is_async=is_async, probe=True, loopcontrols=lc, size=size, env_globals=True).generate()
+    P = Gen(tape, is_async=is_async, probe=True, loopcontrols=lc, size=size, env_globals=True, native=sandboxed == 2).generate()
     nr = 3 + tape.draw(4)
     hist = []
     for _ in range(nr):
@@ -222,7 +227,7 @@ def run(tape: Tape) -> Outcome:
                 out.count("fault_fired_api_" + apiname)
                 fired_list.append((i, k, exck, ev.fired_kind))
                 if res[0] == "raised" and res[1] is exc:
-                    res[1].__traceback__ = None
+                    res[1].with_traceback(None)  # C-level: works for exception classes that forbid attribute assignment
                     steps.append((i, "fault-propagated"))
                     continue
                 if ev.in_capability_test:
@@ -230,7 +235,7 @@ def run(tape: Tape) -> Outcome:
                     # render then does (other output, another error) is not judged
                     out.count("fault_swallowed_in_capability_test")
                     if res[0] == "raised":
-                        res[1].__traceback__ = None
+                        res[1].with_traceback(None)  # C-level: works for exception classes that forbid attribute assignment
                     steps.append((i, "swallowed-by-capability-test"))
                     continue
                 if res[0] == "ok":
@@ -242,7 +247,7 @@ def run(tape: Tape) -> Outcome:
             else:
                 got = _key(res)
                 if res[0] == "raised":
-                    res[1].__traceback__ = None
+                    res[1].with_traceback(None)  # C-level: works for exception classes that forbid attribute assignment
                 want = reference(entry, api, dseed)
                 steps.append((i, got[0]))
                 if got != want:
@@ -254,7 +259,7 @@ def run(tape: Tape) -> Outcome:
         out.count("histories")
         out.count("renders", len(events_per_render))
         out.count("data_events", sum(events_per_render))
-        out.count("env_" + ("sandboxed" if sandboxed else "plain") + ("_async" if is_async else "_sync"))
+        out.count("env_" + ("native" if sandboxed == 2 else "sandboxed" if sandboxed else "plain") + ("_async" if is_async else "_sync"))
         out.decoded = {
             "templates": P.templates, "sandboxed": sandboxed, "async": is_async, "autoescape": ae, "loopcontrols": lc,
             "history": [{"render": i, "entry": e, "api": (ASYNC_APIS if is_async else SYNC_APIS)[a], "data_seed": d,
